@@ -117,6 +117,12 @@ void harness (void)
       __CPROVER_assert(M.n_unix_fds == 0, "postC3 failure attaches nothing to the discarded message");
     }
 #endif
+  /* E: C14 / C01 / C11: corruption is declared only for bytes that are invalid; a validator that merely ran out of memory
+   * (DBUS_VALIDITY_UNKNOWN_OOM_ERROR, header or body) is an out-of-memory return, after which the retry can succeed */
+  __CPROVER_assert(IMP((!G.header_ok && G.header_oom) || (G.header_ok && !G.body_ok && G.body_bad_code == DBUS_VALIDITY_UNKNOWN_OOM_ERROR), !ret && !L.corrupted),
+                   "load.oom2 a validator that ran out of memory (header or body) is reported as out-of-memory, never as a corrupt stream");
+  __CPROVER_assert(IMP(L.corrupted, L.corruption_reason != DBUS_VALID && L.corruption_reason != DBUS_VALIDITY_UNKNOWN_OOM_ERROR), "load.oom3 a corruption reason is a real invalidity code");
+  if (G.header_ok && !G.body_ok && G.body_bad_code == DBUS_VALIDITY_UNKNOWN_OOM_ERROR) REACH("body-validator-oom");
   if (!ret && L.corrupted) REACH("corrupt"); 
   if (!ret && !L.corrupted) REACH("oom");
   /* an out-of-memory failure after the fd array was allocated (the descriptors must still be with the loader: fix in load_message, postC) */
